@@ -124,8 +124,10 @@ func epVerifier(in EPIn, withPluginMgr bool) (interface {
 		opts.RevocationClient = deprecatedClient{&mockRevocation{}}
 	}
 	if withPluginMgr {
+		// the plugin processes the signature's further critical attribute and lists it among all sorts of JSON values
 		p := &mockPlugin{name: pluginName, version: "1.2.0", caps: []pf.Capability{pf.CapabilityTrustedIdentityVerifier},
-			verdicts: map[pf.Capability]string{pf.CapabilityTrustedIdentityVerifier: "success"}}
+			verdicts:  map[pf.Capability]string{pf.CapabilityTrustedIdentityVerifier: "success"},
+			processed: []string{critAttrKey}, processedExtra: []interface{}{[]interface{}{critAttrKey}, map[string]interface{}{"k": "v"}, 1.5, nil}}
 		opts.PluginManager = &mockManager{plugins: map[string]*mockPlugin{pluginName: p}}
 	}
 	return verifier.NewVerifierWithOptions(st, opts)
@@ -145,6 +147,9 @@ func epSignatureFor(in EPIn, format string, id int, d ocispec.Descriptor) []byte
 	var attrs []signature.Attribute
 	if in.Plugin != "none" {
 		attrs = pluginAttrs(pluginName, "1.0.0")
+		if in.Plugin == "installed" {
+			attrs = append(attrs, signature.Attribute{Key: critAttrKey, Critical: true, Value: "must-understand"})
+		}
 	}
 	switch in.Extra {
 	case "strKey":
@@ -158,7 +163,7 @@ func epSignatureFor(in EPIn, format string, id int, d ocispec.Descriptor) []byte
 	case "pluginNumber": // the plugin attribute itself is not a string
 		attrs = append(attrs, signature.Attribute{Key: "io.cncf.notary.verificationPlugin", Critical: true, Value: 7})[len(attrs):]
 	}
-	key := fmt.Sprintf("ep|%s|%v|%s|%v|%s", format, in.Plugin != "none", d.Digest, in.Meta == "match", in.Extra)
+	key := fmt.Sprintf("ep|%s|%s|%s|%v|%s", format, in.Plugin, d.Digest, in.Meta == "match", in.Extra)
 	env := cachedEnv(key, func() []byte {
 		return SignEnvelope(EnvSpec{Format: format, Chain: ch, Payload: payload, ExtAttrs: attrs})
 	})
